@@ -194,4 +194,23 @@ MUTANTS = [
     dict(p="C07", id="as-path-absolute", file="versatiles/src/tools/server/utils/url.rs",
          old="		base.join(&self.str[1..])", new="		base.join(&self.str)",
          why="joining an absolute path replaces the base: /etc/passwd is served... (guard strip_prefix fails -> None) — guard still catches it: control", control=True),
+    # ---------------------------------------------------------------- C20
+    dict(p="C20", id="add-capacity-off-by-one", file="versatiles_core/src/types/limited_cache.rs",
+         old="		if self.cache.len() >= self.max_length {", new="		if self.cache.len() > self.max_length {",
+         why="cache grows to max_length + 1 entries"),
+    dict(p="C20", id="cleanup-keeps-median", file="versatiles_core/src/types/limited_cache.rs",
+         old="			if *idx <= median_index {", new="			if *idx < median_index {",
+         why="with equal stamps (all survivors are reset to 0) nothing is evicted: capacity exceeded"),
+    dict(p="C20", id="capacity-ignores-value-size", file="versatiles_core/src/types/limited_cache.rs",
+         old="let per_element_size = size_of::<K>() + size_of::<V>();", new="let per_element_size = size_of::<K>();",
+         why="byte budget divided by the key size only: more entries than the budget allows"),
+    dict(p="C20", id="get-or-set-stores-under-default-key", file="versatiles_core/src/types/limited_cache.rs",
+         old="		self.add(key.clone(), value);\n		Ok(cloned_value)", new="		Ok(self.add(key.clone(), value))",
+         why="returns what the cache holds after add (or_insert keeps an older value if present) — equivalent here because get() missed: control", control=True),
+    dict(p="C20", id="cleanup-upper-median", file="versatiles_core/src/types/limited_cache.rs",
+         old="let median_index = indices[(indices.len() - 1).div(2)];", new="let median_index = indices[indices.len().div(2)];",
+         why="F10 regression: with two entries the just-used one is evicted"),
+    dict(p="C20", id="get-no-stamp-increment", file="versatiles_core/src/types/limited_cache.rs",
+         old="			self.last_index += 1;\n			*old_index = self.last_index;\n			Some(value.clone())", new="			*old_index = self.last_index;\n			Some(value.clone())",
+         why="a used entry gets the stamp of the last insertion, ties with it"),
 ]
